@@ -94,7 +94,7 @@ func Gen(t *rapid.T) Plan {
 	}), 0, 4).Draw(t, "ctxs")
 
 	p.BusyMs = rapid.SampledFrom([]int{0, 0, 50, 600}).Draw(t, "busy")
-	p.Deliv = rapid.SliceOfN(rapid.SampledFrom([]int{0, 0, 0, 5, 200, 700}), 1, 6).Draw(t, "deliv")
+	p.Deliv = rapid.SliceOfN(rapid.SampledFrom([]int{0, 0, 0, 5, 200, 700, -5, -200, -700}), 1, 6).Draw(t, "deliv")
 
 	return p
 }
